@@ -25,6 +25,7 @@ import cobyqa.models as cmodels  # noqa: E402
 import cobyqa.problem as cproblem  # noqa: E402
 
 EPS = float(np.finfo(float).eps)
+T10 = 2.0 ** -10
 T20 = 2.0 ** -20
 T40 = 2.0 ** -40
 
@@ -269,12 +270,12 @@ def kappa_of(xpt):
 def lattice(n, level):
     """Absolute coordinates of candidate points."""
     if n == 1:
-        vals = [0.0, 0.5, -0.5, 1.0, -1.0, 2.0, -2.0, T20, -T20]
+        vals = [0.0, 0.5, -0.5, 1.0, -1.0, 2.0, -2.0, T10, -T20]
         return [(v,) for v in vals]
     if level == "thin":
         vals = [0.0, 1.0, -1.0, T40]
     else:
-        vals = [0.0, 1.0, -1.0, 2.0, -2.0, T20, T40]
+        vals = [0.0, 1.0, -1.0, 2.0, -2.0, T10, T40]
     pts = list(itertools.product(vals, repeat=n))
     if n >= 3:
         pts = [p for p in pts if sum(1 for c in p if c in (T20, T40)) <= 1 and sum(1 for c in p if abs(c) == 2.0) <= 1]
